@@ -220,8 +220,6 @@ impl InvalidationRegistry {
     pub fn invalidate_by_tag(&self, tag: &str) -> usize {
         #[cfg(feature = "verif")]
         crate::verif::yield_point(3007, crate::verif::addr_of(&self.tag_to_caches), crate::verif::Acq::Shared, &|| !self.tag_to_caches.is_locked_exclusive());
-        #[cfg(feature = "verif")]
-        let _verif_held_7 = crate::verif::hold(crate::verif::addr_of(&self.tag_to_caches));
         let cache_names = self
             .tag_to_caches
             .read()
@@ -244,8 +242,6 @@ impl InvalidationRegistry {
     pub fn invalidate_by_event(&self, event: &str) -> usize {
         #[cfg(feature = "verif")]
         crate::verif::yield_point(3008, crate::verif::addr_of(&self.event_to_caches), crate::verif::Acq::Shared, &|| !self.event_to_caches.is_locked_exclusive());
-        #[cfg(feature = "verif")]
-        let _verif_held_8 = crate::verif::hold(crate::verif::addr_of(&self.event_to_caches));
         let cache_names = self
             .event_to_caches
             .read()
@@ -268,8 +264,6 @@ impl InvalidationRegistry {
     pub fn invalidate_by_dependency(&self, dependency: &str) -> usize {
         #[cfg(feature = "verif")]
         crate::verif::yield_point(3009, crate::verif::addr_of(&self.dependency_to_caches), crate::verif::Acq::Shared, &|| !self.dependency_to_caches.is_locked_exclusive());
-        #[cfg(feature = "verif")]
-        let _verif_held_9 = crate::verif::hold(crate::verif::addr_of(&self.dependency_to_caches));
         let cache_names = self
             .dependency_to_caches
             .read()
